@@ -101,7 +101,13 @@ fn fp_hook(id: u32, a: usize, b: usize) {
     FP_HITS[i].fetch_add(1, Ordering::Relaxed);
     use tiny_http::verif as v;
     match id {
+        v::FP_POOL_WORKER_LOOP => crate::alloc::set_key(0),
+        _ => {}
+    }
+    match id {
         v::FP_SOCK_READ => {
+            // this thread works for the connection with client port `a`
+            crate::alloc::set_key(a as u32);
             if TRACK_READS.load(Ordering::Relaxed) {
                 let rt = reads();
                 let mut m = rt.m.lock().unwrap();
